@@ -64,3 +64,15 @@ VARIANTS += [
     M('C10', 'reference-stripped-as-a-whole', E(RT, "        mode = 'wb' if binary else 'w'\n        with open(reference_path, mode) as fout:", "        mode = 'wb' if binary else 'w'\n        if rstrip and not binary:\n            result = result.rstrip()\n        with open(reference_path, mode) as fout:"),
       rule='C10-VERBATIM', key='_write_reference_result'),
 ]
+
+VARIANTS += [
+    M('C10', 'kind-label-aliased-in-memory-assertion', E(RT, "        expected_path = self._resolve_reference_path(ref_path, kind=kind)\n        if self._should_regenerate(kind):\n            self.pandas._write_reference_dataframe(df, expected_path)",
+                                                         "        if kind == 'parquet':\n            kind = 'csv'\n        expected_path = self._resolve_reference_path(ref_path, kind=kind)\n        if self._should_regenerate(kind):\n            self.pandas._write_reference_dataframe(df, expected_path)"),
+      rule='C10-KINDFWD', key='assertDataFrameCorrect'),
+    M('C10', 'documented-alias-guard-inverted', E(RT, "        if kind == 'parquet':\n            kind = 'csv'  # it's just a key; can be parquet\n        expected_path",
+                                                  "        if kind != 'csv':\n            kind = 'csv'  # it's just a key; can be parquet\n        expected_path"),
+      rule='C10-KINDFWD', key='assertOnDiskDataFrameCorrect'),
+    M('C10', 'refactor-alias-comment-and-quotes', E(RT, "        if kind == 'parquet':\n            kind = 'csv'  # it's just a key; can be parquet\n        expected_path",
+                                                    "        if kind == \"parquet\":  # documented alias\n            kind = \"csv\"\n        expected_path"),
+      kind='refactor'),
+]
